@@ -83,6 +83,8 @@ type Plan struct {
 	SharedPool bool `json:"shared_pool,omitempty"`
 	// Checks selects oracle families beyond the always-on ones.
 	Checks map[string]bool `json:"checks,omitempty"`
+	// C20: manager case.
+	C20 *C20Case `json:"c20,omitempty"`
 	// C08: client-level case (cache transparency).
 	C08 *C08Case `json:"c08,omitempty"`
 	// C07: client-level case (response corruption).
